@@ -214,6 +214,10 @@ def oracle(ctx, hints, effort):
     for it in range(10 if effort == "routine" else 100):
         sc = ns_scene(rng, max_layers=8)
         sc["nmax"] = int(rng.choice([8, 16, 32]))
+        if it in (1, 2):      # the documented end points of a prescribed reflector: black body (0) and perfect mirror (1)
+            sc["substrate"] = dict(kind="reflector", T=round(float(rng.uniform(200, 300)), 2), eps=[3.0, 0.1],
+                                   params=dict(specular_reflection=[0.0, 1.0][it - 1]))
+            sc["thickness"] = [round(float(v), 3) for v in rng.uniform(0.05, 1.0, len(sc["thickness"]))]
         if sc.get("substrate") and sc["substrate"]["kind"] in ("soil_qnh", "rough_choudhury79") and rng.random() < 0.5:
             sc["substrate"] = dict(kind="flat", T=sc["substrate"]["T"], eps=sc["substrate"]["eps"])
         try:
